@@ -10,10 +10,12 @@ from pyvc.spec import REG
 from .expr import *  # noqa  (contracts of the expression layer, props C13 + C04)
 from . import expr as _expr
 from . import expr_native as _native
+from . import c13_types as _types  # service types as type expressions (contracts registered on import)
 
 LEVEL = "proof"
 _native.install(REG)
 _native.install_funnel()
+_native.install_types(REG)
 NATIVE = _native.NATIVE
 NATIVE_BUDGET = {"quick": 40, "thorough": 600}
 
@@ -32,12 +34,12 @@ NOT_COVERED = [
     "visitors not under contract (statements, types, comments, identifiers, expression lists, expression_atom, "
     "_visit_binary_operator_chain) and the whole DataTypeBuilder / Constant / serializable-type constructors: the ghost flag "
     "visitor_crashed is excluded only for the visitors listed under functions_under_contract",
-    "DSDLDefinition.read and _namespace_reader._read_definitions (path attachment): only "
-    "Error.set_error_location_if_unknown, which both call, is proved; the whole_text extra check observes a path on every "
-    "rejected definition (bounded)",
-    "_operator.attribute, CompositeType._attribute, SerializableType._attribute (exercised natively by whole_text only); "
-    "Set._attribute is under contract (exception classes, count, min/max select a member) but the *order* of min / max is "
-    "not specified (functools.reduce is modelled as a selection fold)",
+    "_namespace_reader._read_definitions (nested class, recursion, mutable sets: out of the engine's reach): its path "
+    "attachment is the same two statements as in DSDLDefinition.read, whose clause `raises-post#Error#path-attached` is proved "
+    "under C09 (specs/c09.py, props C09 + C13); the whole_text extra check observes a path on every rejected definition (bounded)",
+    "_operator.attribute and SerializableType._attribute (assumed exception-class contract: iteration over a BitLengthSet "
+    "is not modelled); fields of a service type: ServiceType._check_aggregation is proved to report a failure, that "
+    "CompositeType.__init__ turns it into AggregationError before computing the layout is C05's subject (whole_text: bounded)",
     "sets of sets and sets of types: every contract involving a Set operand assumes (precondition `domain`) that its "
     "element class is Boolean, Rational or String",
     "string literals whose body contains the delimiting quote character after a backslash (precondition "
@@ -71,10 +73,15 @@ TARGETED = [
     "@assert 0x_ == 1", "@assert 1__0 == 1", "@assert 1.e5 == 1", "@assert 'a", "@assert 'a\\'", "@assert \"\\x41\" == 'A'",
     "uint8 x\n@assert _offset_.foo == 1", "@deprecated 1", "@sealed 1", "@print", "@print 1 2", "Foo.1.0 x", "ns.A.1 x",
     "ns.A.1.0.0 x", "uint8 _x", "uint8 x\nuint8 x", "@union\nuint8 a", "void8 x", "void65", "uint0 x", "uint65 x",
+    "S.1.0 f", "S.1.0[2] f", "S.1.0[<=2] f", "S.1.0[<3] f", "@assert S.1.0._extent_ > 0", "@print S.1.0._bit_length_",
+    "@union\nS.1.0 a\nuint8 b", "@print S.1.0", "@assert {S.1.0} == {S.1.0}", "@assert S.1.0.foo", "ns.S.1.0 f",
     "float17 x", "saturated bool x", "truncated int8 x", "uint8[4294967296] x", "\x00", "\t\r", "#",
 ]
+_BIG = "1" + "0" * 5000
 DIGIT_LIMIT = ["@print 10**5000", "@assert 10**5000 / 0 == 1", "uint8 X = 10**5000", "uint8[10**5000 / 3] x",
-               "@assert 10**5000 | 0.5 == 1"]
+               "@assert 10**5000 | 0.5 == 1",                     # text rendering of a huge rational (fix patch 4)
+               "@assert %s == 1" % _BIG, "@assert %s.0 == 1" % _BIG, "uint%s x" % _BIG,  # decimal literal > 4300 digits
+               "@extent 10**5000 * 8", "uint64 z\n@extent -(10**5000) * 8"]          # %d of a huge native int
 
 
 def whole_text(eng, tier, seed):
@@ -117,6 +124,8 @@ def whole_text(eng, tier, seed):
     try:
         os.mkdir(os.path.join(root, "ns"))
         path = os.path.join(root, "ns", "A.1.0.dsdl")
+        with open(os.path.join(root, "ns", "S.1.0.dsdl"), "w") as f:  # a service type that the texts may refer to
+            f.write("uint8 a\n@sealed\n---\nuint8 b\n@sealed\n")
         for text in texts:
             if any(0xD800 <= ord(ch) <= 0xDFFF for ch in text):
                 continue  # not encodable as UTF-8: cannot be the text of a definition file
